@@ -17,3 +17,16 @@ package compound
 //@ use dlast_range(res(RsiStrategy_Compute))
 //@ use dlast_hold(res(MacdStrategy_Compute), m.MacdStrategy.Macd.IdlePeriod())
 //@ use dlast_hold(res(RsiStrategy_Compute), m.RsiStrategy.Rsi.IdlePeriod())
+
+// ---- reports (C14): every column has one value per date row; rows carry that date's close, annotation, outcome ----
+//@ func MacdRsiStrategy.Report
+//@ requires consumed(c) == 0 && m.RsiStrategy.Rsi.Rma.Period >= 1 && 1 <= m.MacdStrategy.Macd.Ema1.Period && m.MacdStrategy.Macd.Ema1.Period <= m.MacdStrategy.Macd.Ema2.Period && m.MacdStrategy.Macd.Ema3.Period >= 1 && (forall k :: 0 <= k && k < len(c) ==> c[k].Close > 0)
+//@ ensures[C14] "column-count" len(result.Columns) == 6
+//@ ensures[C14] "one-value-per-date" len(c) > 0 && (len(c) >= max(m.MacdStrategy.Macd.IdlePeriod(), m.RsiStrategy.Rsi.IdlePeriod())) ==> (forall i :: 0 <= i && i < len(result.Columns) ==> len(col(result.Columns[i])) == len(result.Date))
+//@ ensures[C14] "dates" len(c) > 0 && (len(c) >= max(m.MacdStrategy.Macd.IdlePeriod(), m.RsiStrategy.Rsi.IdlePeriod())) ==> len(result.Date) <= len(c) && (forall k :: 0 <= k && k < len(result.Date) ==> result.Date[k] == c[k + len(c) - len(result.Date)].Date)
+//@ ensures[C14] "close" len(c) > 0 && (len(c) >= max(m.MacdStrategy.Macd.IdlePeriod(), m.RsiStrategy.Rsi.IdlePeriod())) ==> (forall k :: 0 <= k && k < len(result.Date) ==> colnum(result.Columns[0])[k] == c[k + len(c) - len(result.Date)].Close)
+//@ ensures[C14] "annotation" len(c) > 0 && (len(c) >= max(m.MacdStrategy.Macd.IdlePeriod(), m.RsiStrategy.Rsi.IdlePeriod())) ==> (forall k :: 0 <= k && k < len(result.Date) ==> colstr(result.Columns[4])[k] == (normS(res(MacdRsiStrategy_Compute), k + len(c) - len(result.Date)) == 0 - 1 ? "S" : (normS(res(MacdRsiStrategy_Compute), k + len(c) - len(result.Date)) == 1 ? "B" : "")))
+//@ ensures[C14] "outcome" len(c) > 0 && (len(c) >= max(m.MacdStrategy.Macd.IdlePeriod(), m.RsiStrategy.Rsi.IdlePeriod())) ==> (forall k :: 0 <= k && k < len(result.Date) ==> colnum(result.Columns[5])[k] == res(Outcome)[k + len(c) - len(result.Date)] * 100)
+//@ ensures[C03] consumed(c) == len(c)
+//@ use nlast_hold(res(MacdRsiStrategy_Compute), len(res(MacdRsiStrategy_Compute)) - len(arg(ActionsToAnnotations, 0, 0)), len(res(MacdRsiStrategy_Compute)) - len(arg(ActionsToAnnotations, 0, 0)))
+//@ use nlast_skip(res(MacdRsiStrategy_Compute), arg(ActionsToAnnotations, 0, 0), len(res(MacdRsiStrategy_Compute)) - len(arg(ActionsToAnnotations, 0, 0)))
